@@ -131,7 +131,17 @@ Section Sat.
                                      forallb (fun a' => self_ident p a' || has b0 (NS (Pred p a') true w))
                                              (repl_one ta tb args ++ repl_one tb ta args)
                                  | _ => true end) b0
-            then [] else [(k, 8)])) ++ ident_from b0 (S k) r
+            then [] else [(k, 8)]) ++
+           (* code 9: the substitution the rule itself performs (every occurrence of a by b if a occurs, else every
+              occurrence of b by a) into another positive predication at the same world *)
+           (if forallb (fun m => match m with
+                                 | NS (Pred p args) true w' =>
+                                     negb (Nat.eqb w w') || node_eqb m (NS (Pred 0 [ta; tb]) true w) ||
+                                     (let a' := if existsb (term_eqb ta) args then map (replace_term ta tb) args
+                                                else map (replace_term tb ta) args in
+                                      self_ident p a' || has b0 (NS (Pred p a') true w))
+                                 | _ => true end) b0
+            then [] else [(k, 9)])) ++ ident_from b0 (S k) r
     | _ :: r => ident_from b0 (S k) r
     end.
   Definition ident_unsaturated (b : list node) : list (nat * nat) :=
